@@ -48,6 +48,9 @@ func runC16(t *testing.T, seed uint64, m *Mask) *Report {
 	opt.ReaderSize = []int{16, 64, 1024}[r.Intn(3)]
 	proto := []string{"raw", "raw", "json", "pb"}[r.Intn(4)]
 	checker := []string{"verify", "verify", "verify", "read_twice", "never_read_reject", "panic_on_malformed"}[r.Intn(6)]
+	// some checkers name the session after the presented credentials before they decide (the auth plugin
+	// hands SetID to the checker for that): a connection refused afterwards must still vanish from the index
+	setID := r.Chance(0.4)
 	n := 1 + r.Intn(5)
 	firsts := []string{"auth_good", "auth_good", "auth_bad", "auth_malformed", "auth_undecodable", "call", "push", "reply", "auth_reply", "badtype", "garbage", "trunc", "nothing"}
 	var clients []*c16Client
@@ -66,7 +69,7 @@ func runC16(t *testing.T, seed uint64, m *Mask) *Report {
 		clients = append(clients, c)
 	}
 	rep := &Report{NOps: len(clients)}
-	rep.Cell = fmt.Sprintf("%s,checker=%s", proto, checker)
+	rep.Cell = fmt.Sprintf("%s,checker=%s,setid=%v", proto, checker, setID)
 
 	out := world.Run(t, opt, func(e *world.Env) {
 		e.AllowUnknownArgs = true
@@ -81,6 +84,10 @@ func runC16(t *testing.T, seed uint64, m *Mask) *Report {
 			var info string
 			if st := recv(&info); !st.OK() {
 				return nil, st
+			}
+			if setID {
+				sess.SetID("user-of-" + sess.RemoteAddr().String())
+				simrt.YieldN(e.Gen.Intn(3))
 			}
 			if checker == "read_twice" {
 				var again string
